@@ -914,7 +914,9 @@ FAULT_OBJS = {"o1": {"attrs": {"a": J.vint(1), "ra": {"t": "raiser", "exc": "Att
                      "str": J.vstr("O<1>")},
               "o2": {"attrs": {}, "items": {}, "str": {"t": "raiser", "exc": "Private", "id": "strfault"}},
               # an object that defines its own truth value (falsy)
-              "o3": {"attrs": {"a": J.vint(3)}, "items": {}, "str": J.vstr("O3"), "bool": J.vbool(False)}}
+              "o3": {"attrs": {"a": J.vint(3)}, "items": {}, "str": J.vstr("O3"), "bool": J.vbool(False)},
+              # an object with a length and no truth value of its own (empty: falsy)
+              "o4": {"attrs": {"a": J.vint(4)}, "items": {}, "str": J.vstr("O4"), "len": J.vint(0)}}
 
 
 def fault_base_case(rnd, cid):
@@ -943,7 +945,9 @@ def fault_base_case(rnd, cid):
         if r < 0.6: return [J.If([call("f2")], [[J.Text("T"), J.Out(call())]], [J.Text("F")])]
         if r < 0.65:
             # the truth value of a data object (its __bool__) in every place that asks for it
-            o = N(rnd.choice(["o1", "o3", "o3"]))
+            o = N(rnd.choice(["o1", "o3", "o3", "o4", "o4"]))
+            if rnd.random() < 0.2:
+                return [J.Out(J.Filter(N("o4"), "length")), J.Out(J.Filter(o, "default", [C("d"), C(True)]))]
             return [rnd.choice([J.If([o], [[J.Text("T")]], [J.Text("F")]), J.Out(J.Or(o, C("or"))), J.Out(J.And(o, C("and"))), J.Out(J.Not(o)),
                                 J.Out(J.Cond(o, C("y"), C("n"))), J.Out(J.Filter(o, "default", [C("d"), C(True)])),
                                 J.For(J.TName("x"), N("l1"), [J.Out(N("x"))], None, o)])]
@@ -997,7 +1001,7 @@ def fault_base_case(rnd, cid):
     tpls["main"] = J.template(body, auto)
     data = {"f1": J.vfn("f1", "arg0", J.vint(0)), "f2": J.vfn("f2", "const", J.vint(5)),
             "f3": J.vfn("f3", "const", J.vlist([J.vint(1), J.vint(2)])), "f4": J.vfn("f4", "stopiter"),
-            "it": J.vlist([J.vint(4), J.vint(5), J.vint(6)]), "l1": J.vlist([J.vint(7)]), "o1": J.vobj("o1"), "o3": J.vobj("o3")}
+            "it": J.vlist([J.vint(4), J.vint(5), J.vint(6)]), "l1": J.vlist([J.vint(7)]), "o1": J.vobj("o1"), "o3": J.vobj("o3"), "o4": J.vobj("o4")}
     return J.make_case(cid, tpls, "main", [data], objs=FAULT_OBJS)
 
 
@@ -1052,6 +1056,11 @@ def fault_variants(base, obs, start_id):
             o = copy.deepcopy(FAULT_OBJS)
             o[oid]["bool"] = {"t": "raiser", "exc": "Private", "id": "bool_" + oid}
             variant(d0, objs=o)
+    if '"o4"' in src:
+        # __len__ raises: asked for by |length and by every truth test of an object without __bool__
+        o = copy.deepcopy(FAULT_OBJS)
+        o["o4"]["len"] = {"t": "raiser", "exc": "Private", "id": "len_o4"}
+        variant(d0, objs=o)
     return out
 
 
